@@ -5,6 +5,7 @@
 import Pk.Driver.C17
 import Pk.Driver.Mgr
 import Pk.Driver.C15
+import Pk.Driver.C12
 import Pk.Driver.C18
 import Pk.Driver.C05
 import Pk.Driver.C08
@@ -21,6 +22,7 @@ def main (args : List String) : IO UInt32 := do
   | ["c05"] => Pk.Driver.C05.main; return 0
   | ["c08"] => Pk.Driver.C08.main; return 0
   | ["c05-full"] => Pk.Driver.C05.mainWith 1000000000; return 0
+  | ["c12"] => Pk.Driver.C12.main; return 0
   | ["c15"] => Pk.Driver.C15.main; return 0
   | "mgr" :: convs => Pk.Driver.Mgr.main convs; return 0
   | _ =>
